@@ -282,7 +282,7 @@ def run(ctx, facts):
         "Structural clauses of C06: (a) SetSketch registers never decrease (guarded writes in sketch, element-wise max in merge, "
         "no other writer), the precondition of a monotone estimate; (b) the sketcher's own estimate and the parallel estimator on "
         "a raw register slice are the same expression (sibling normal-form comparison).")
-    ctx.not_decided[:] = ["bias of order 1/m and the advertised spread", "the rel_std_dev formula", "rounding of the rayon reduction order"]
+    ctx.not_decided[:] = ["bias of order 1/m and the observed spread (the advertised formula is checked: FORMULA)", "rounding of the rayon reduction order"]
     C04._setsketch(ctx, facts)
     C05.merge_rules(ctx, facts)
     C05.lower_rules(ctx, facts)
